@@ -420,3 +420,37 @@ _run_n5 = run
 def run(ctx, rep, tier):
     _run_n5(ctx, rep, tier)
     _merge_lookup_covers_the_fallthrough(ctx, rep, tier)
+
+
+# ---------------------------------------------------------------------------------------------------------------- C05.o
+def _failed_marker_names_no_live_state(ctx, rep, tier):
+    """C05.o: the number the machine rests at once it has failed must not be the number of a live state at ANY optimisation level. With the fail state in the
+    machine (-O0, or a program that can fail) it is that state's index; where the state was removed as inaccessible (-O1 and above, a program that cannot fail) it
+    has to lie outside range(len(states)) - `len(states) - 1` names the last live state, and an empty chunk fed while the machine rests there answers FAIL."""
+    model = ctx.model
+    q = "CodegenCtx._fail_state_index"
+    fn = model.func(q)
+    rep.rule("C05.o", "the 'failed' marker is the fail state's own index when that state is part of the machine and a number no state has (>= len(states)) when it was "
+                      "removed: the answer to a call in the failed / a live state does not depend on whether remove-inaccessible-states ran")
+    rets = [r for r in ast.walk(fn) if isinstance(r, ast.Return) and r.value is not None]
+    guarded = [r for r in rets if ast.unparse(r.value) == "self.dfa.states.index(self.generic_fail_state)"]
+    ok_guard = len(guarded) == 1 and isinstance(model.parents.get(guarded[0]), ast.If) and ast.unparse(model.parents[guarded[0]].test) == "self.generic_fail_state in self.dfa.states"
+    rep.check(ok_guard, "C05.o", q, "fail state present: its own index", "the marker for a machine that contains the fail state is no longer that state's index (guarded by its membership)")
+    others = [r for r in rets if r not in guarded]
+    bad = []
+    for r in others:
+        m = re.fullmatch(r"len\(self\.dfa\.states\)(?: ([+-]) (\d+))?", ast.unparse(r.value))
+        off = None if m is None else (0 if m.group(1) is None else int(m.group(2)) * (1 if m.group(1) == "+" else -1))
+        if off is None or off < 0:
+            bad.append(ast.unparse(r.value))
+    rep.check(bool(others) and not bad, "C05.o", q, "fail state removed: a number outside range(len(states))",
+              f"without a fail state the marker is `{', '.join(bad) or 'missing'}`: the number of a live state - at -O1 and above (fail state removed for a program that cannot fail) an "
+              "empty chunk fed while the machine rests in its highest-numbered state answers FAIL; -O0 keeps the state and is unaffected")
+
+
+_run_o5 = run
+
+
+def run(ctx, rep, tier):
+    _run_o5(ctx, rep, tier)
+    _failed_marker_names_no_live_state(ctx, rep, tier)
